@@ -157,7 +157,15 @@ pub fn strategy() -> BoxedStrategy<Case> {
 }
 
 pub fn streams() -> Vec<Box<dyn AnyStream>> {
-    vec![Box::new(Stream::<Case> {
+    vec![
+        Box::new(Stream::<Case> {
+            name: "token-sequences",
+            quick: 0,
+            thorough: 0,
+            source: Source::Enum(Box::new(|tier| Box::new(strgen::token_space(tier == Tier::Thorough).map(|(fi, s)| Case { fi, class: "tokens".into(), s, splits: vec![21845, 43690] })))),
+            check: Box::new(check),
+        }),
+        Box::new(Stream::<Case> {
         name: "strings",
         quick: 60_000,
         thorough: 4_000_000,
